@@ -748,16 +748,244 @@ table : PairTable , window : Vec < u8 > , }
 
 ghost struct CsView { table: Seq<u32>, table_words: int, num_entries: u32, window: Seq<u32>, window_words: int }
 spec fn cs_default() -> CsView { CsView { table: Seq::empty(), table_words: 0, num_entries: 0, window: Seq::empty(), window_words: 0 } }
-// what the compressor is ASSUMED to deliver (from its debug_asserts and the buffer discipline of low_level_compress_*):
-spec fn compress_shape(fl: Flavor, c: CsView) -> bool {
-    &&& 0 <= c.table_words <= c.table.len() && 0 <= c.window_words <= c.window.len()
-    &&& c.table_words <= 0xffff_ffff && c.window_words <= 0xffff_ffff
-    &&& fl is Empty ==> c == cs_default()
-    &&& (fl is Sparse || fl is Hybrid) ==> c.window.len() == 0 && c.table.len() > 0
-    &&& (fl is Pinned || fl is Sliding) ==> c.window.len() > 0
+// =====================================================================================================================
+// REFINEMENT MAPPING to unit cpc_coder (which verifies the real bodies of `compress` / `uncompress` and of everything below them).
+// This unit used to speak about the entropy coder through two uninterpreted functions `compressed_of(sketch)` and
+// `uncompressed_of(state, lg_k, C)`.  They are replaced by the coder's own INTERPRETED predicates
+//     compress_image(c, s)        what `compress` leaves in a default CompressedState (C12 of the coder)
+//     image_valid(c, lg_k, C)     what `uncompress` needs of a compressed state      (C13 precondition of the coder)
+//     decoded_as(r, c, lg_k, C)   what `uncompress` returns for a valid state        (C13 of the coder)
+//     coder_shape(fl, c)          flags / word counts of what `compress` leaves
+// The block below is the spec closure of these predicates, VERBATIM from contracts/cpc_coder.rs (same names, same tokens, so that
+// tools/linkcheck.py / tools/linkprove.py identify the definitions; only `CpcSketch::tbl` differs: this unit uses the total form of
+// cpc_core / cpc_update, equal to the coder's whenever the table is present, which coder_wf demands).
+// =====================================================================================================================
+spec fn enc_len(e: u16) -> int { (e >> 12) as int }
+spec fn enc_val(e: u16) -> u64 { (e & 0xfff) as u64 }
+spec fn code_bits(e: u16) -> Seq<bool> { buf_bits(enc_val(e), enc_len(e)) }
+spec fn enc_bytes(enc: Seq<u16>, bytes: Seq<u8>) -> Seq<bool> decreases bytes.len() {
+    if bytes.len() == 0 { Seq::empty() } else { enc_bytes(enc, bytes.drop_last()) + code_bits(enc[bytes.last() as int]) }
 }
-uninterp spec fn compressed_of(s: CpcSketch) -> CsView;
-uninterp spec fn uncompressed_of(c: CsView, lg_k: u8, num_coupons: u32) -> UncompressedState;
+#[verifier::opaque]
+spec fn ors12(c0: bool, c1: bool, c2: bool, c3: bool, c4: bool, c5: bool, c6: bool, c7: bool, c8: bool, c9: bool, c10: bool, c11: bool) -> u64 { (if c0 { 1u64 } else { 0 }) | (if c1 { 2u64 } else { 0 }) | (if c2 { 4u64 } else { 0 }) | (if c3 { 8u64 } else { 0 }) | (if c4 { 16u64 } else { 0 }) | (if c5 { 32u64 } else { 0 }) | (if c6 { 64u64 } else { 0 }) | (if c7 { 128u64 } else { 0 }) | (if c8 { 256u64 } else { 0 }) | (if c9 { 512u64 } else { 0 }) | (if c10 { 1024u64 } else { 0 }) | (if c11 { 2048u64 } else { 0 }) }
+spec fn peek12(s: Seq<bool>) -> u64 { ors12(s[0], s[1], s[2], s[3], s[4], s[5], s[6], s[7], s[8], s[9], s[10], s[11]) }
+spec fn dec_bytes(dec: Seq<u16>, s: Seq<bool>, n: int) -> Seq<u8> decreases n {
+    if n <= 0 { Seq::empty() } else { let e = dec[peek12(s) as int]; seq![(e & 0xff) as u8] + dec_bytes(dec, s.skip((e >> 8) as int), n - 1) }
+}
+spec fn dec_bytes_fits(dec: Seq<u16>, s: Seq<bool>, n: int) -> bool decreases n {
+    n <= 0 || (s.len() >= 12 && dec_bytes_fits(dec, s.skip((dec[peek12(s) as int] >> 8) as int), n - 1))
+}
+uninterp spec fn sp_llu_enc() -> [u16; 65];
+uninterp spec fn sp_llu_dec() -> [u16; 4096];
+uninterp spec fn sp_byte_enc() -> [[u16; 256]; 22];
+uninterp spec fn sp_byte_dec() -> [[u16; 4096]; 22];
+uninterp spec fn sp_perm_enc() -> [[u8; 56]; 16];
+uninterp spec fn sp_perm_dec() -> [[u8; 56]; 16];
+spec fn llu_enc() -> Seq<u16> { sp_llu_enc()@ }
+spec fn llu_dec() -> Seq<u16> { sp_llu_dec()@ }
+spec fn pairs_ascending(pairs: Seq<u32>) -> bool { forall|i: int, j: int| #![trigger pairs[i], pairs[j]] 0 <= i < j < pairs.len() ==> pairs[i] < pairs[j] }
+spec fn prev_row(pairs: Seq<u32>, i: int) -> u32 { if i <= 0 { 0 } else { pairs[i - 1] >> 6 } }
+spec fn prev_col(pairs: Seq<u32>, i: int) -> u32 { if i <= 0 { 0 } else { ((pairs[i - 1] & 63) + 1) as u32 } }
+spec fn y_delta_of(pairs: Seq<u32>, i: int) -> u32 { ((pairs[i] >> 6) - prev_row(pairs, i)) as u32 }
+spec fn x_delta_of(pairs: Seq<u32>, i: int) -> u32 { ((pairs[i] & 63) - (if (pairs[i] >> 6) != prev_row(pairs, i) { 0 } else { prev_col(pairs, i) as int })) as u32 }
+spec fn lo_mask(nbb: int) -> u64 { ((1u64 << (nbb as u64)) - 1) as u64 }
+spec fn golomb_bits(y: u64, nbb: int) -> Seq<bool> { unary((y >> (nbb as u64)) as int) + buf_bits(y & lo_mask(nbb), nbb) }
+spec fn pair_code(llu: Seq<u16>, nbb: int, pairs: Seq<u32>, i: int) -> Seq<bool> {
+    code_bits(llu[x_delta_of(pairs, i) as int]) + golomb_bits(y_delta_of(pairs, i) as u64, nbb)
+}
+spec fn enc_pairs(llu: Seq<u16>, nbb: int, pairs: Seq<u32>, n: int) -> Seq<bool> decreases n {
+    if n <= 0 { Seq::empty() } else { enc_pairs(llu, nbb, pairs, n - 1) + pair_code(llu, nbb, pairs, n - 1) }
+}
+spec fn pad_bits(nbb: int) -> int { if nbb >= 10 { 0 } else { 10 - nbb } }
+spec fn bits_val(s: Seq<bool>, n: int) -> u64 decreases n { if n <= 0 { 0 } else { bits_val(s, n - 1) | (if s[n - 1] { 1u64 << ((n - 1) as u64) } else { 0 }) } }
+spec fn dec_pair_x(dec: Seq<u16>, s: Seq<bool>) -> u16 { dec[peek12(s) as int] }
+spec fn dec_pair_s1(dec: Seq<u16>, s: Seq<bool>) -> Seq<bool> { s.skip((dec_pair_x(dec, s) >> 8) as int) }
+spec fn dec_pair_s2(dec: Seq<u16>, s: Seq<bool>) -> Seq<bool> { dec_pair_s1(dec, s).skip(first_one(dec_pair_s1(dec, s)) + 1) }
+spec fn dec_pair_y(dec: Seq<u16>, nbb: int, s: Seq<bool>) -> u32 {
+    ((((first_one(dec_pair_s1(dec, s)) as u64) << (nbb as u64)) | bits_val(dec_pair_s2(dec, s), nbb)) as u32)
+}
+spec fn dec_pair_row(dec: Seq<u16>, nbb: int, s: Seq<bool>, prow: u32) -> int { prow + dec_pair_y(dec, nbb, s) }
+spec fn dec_pair_col(dec: Seq<u16>, nbb: int, s: Seq<bool>, pcol: u8) -> int { (if dec_pair_y(dec, nbb, s) > 0 { 0 } else { pcol as int }) + ((dec_pair_x(dec, s) & 0xff) as u8) }
+spec fn dec_pair_rest(dec: Seq<u16>, nbb: int, s: Seq<bool>) -> Seq<bool> { dec_pair_s2(dec, s).skip(nbb) }
+spec fn dec_pair_fits(dec: Seq<u16>, nbb: int, s: Seq<bool>, prow: u32, pcol: u8) -> bool {
+    &&& s.len() >= 12
+    &&& first_one(dec_pair_s1(dec, s)) + 8 <= dec_pair_s1(dec, s).len()
+    &&& dec_pair_s2(dec, s).len() >= nbb
+    &&& dec_pair_row(dec, nbb, s, prow) <= u32::MAX
+    &&& dec_pair_col(dec, nbb, s, pcol) < 255
+}
+#[verifier::opaque]
+spec fn dec_pairs(dec: Seq<u16>, nbb: int, s: Seq<bool>, n: int, prow: u32, pcol: u8) -> Seq<u32> decreases n {
+    if n <= 0 { Seq::empty() } else {
+        let row = dec_pair_row(dec, nbb, s, prow) as u32; let col = dec_pair_col(dec, nbb, s, pcol) as u8;
+        seq![(row << 6) | (col as u32)] + dec_pairs(dec, nbb, dec_pair_rest(dec, nbb, s), n - 1, row, (col + 1) as u8)
+    }
+}
+#[verifier::opaque]
+spec fn dec_pairs_fits(dec: Seq<u16>, nbb: int, s: Seq<bool>, n: int, prow: u32, pcol: u8) -> bool decreases n {
+    n <= 0 || (dec_pair_fits(dec, nbb, s, prow, pcol)
+        && dec_pairs_fits(dec, nbb, dec_pair_rest(dec, nbb, s), n - 1, dec_pair_row(dec, nbb, s, prow) as u32, (dec_pair_col(dec, nbb, s, pcol) as u8 + 1) as u8))
+}
+spec fn flog2(x: int) -> int decreases x { if x <= 1 { 0 } else { 1 + flog2(x / 2) } }
+spec fn golomb_nbb(k: int, count: int) -> int { let q = (k - count) / count; if q <= 0 { 0 } else { flog2(q) } }
+spec fn pseudo_phase_spec(lg_k: u8, c: u32) -> int {
+    let k = pow2(lg_k as nat) as int; let ci = c as int;
+    if 1000 * ci < 2375 * k {
+        if 4 * ci < 3 * k { 16 } else if 10 * ci < 11 * k { 17 } else if 100 * ci < 132 * k { 18 } else if 3 * ci < 5 * k { 19 }
+        else if 1000 * ci < 1965 * k { 20 } else if 1000 * ci < 2275 * k { 21 } else { 6 }
+    } else { ((c >> ((lg_k - 4) as u32)) & 15) as int }
+}
+spec fn byte_enc(phase: int) -> Seq<u16> { sp_byte_enc()@[phase]@ }
+spec fn byte_dec(phase: int) -> Seq<u16> { sp_byte_dec()@[phase]@ }
+spec fn is_window_image(words: Seq<u32>, phase: int, w: Seq<u8>) -> bool {
+    let st = enc_bytes(byte_enc(phase), w);
+    &&& 32 * words.len() >= st.len() + 11
+    &&& words_bits(words) == st + zeros(32 * words.len() - st.len())
+    &&& words.len() == (st.len() + 11 + 31) / 32
+}
+spec fn is_pairs_image(words: Seq<u32>, nbb: int, pairs: Seq<u32>) -> bool {
+    let st = enc_pairs(llu_enc(), nbb, pairs, pairs.len() as int);
+    &&& 32 * words.len() >= st.len() + pad_bits(nbb)
+    &&& words_bits(words) == st + zeros(32 * words.len() - st.len())
+    &&& words.len() == (st.len() + pad_bits(nbb) + 31) / 32
+}
+spec fn k_of(lg_k: u8) -> int { pow2(lg_k as nat) as int }
+spec fn sorted_items(pairs: Seq<u32>, set: ISet<u32>) -> bool { pairs_ascending(pairs) && forall|x: u32| pairs.contains(x) <==> set.contains(x) }
+spec fn table_image_of(words: Seq<u32>, num_entries: u32, lg_k: u8, set: ISet<u32>) -> bool {
+    exists|pairs: Seq<u32>| #[trigger] sorted_items(pairs, set) && pairs.len() == num_entries && pairs.len() >= 1
+        && is_pairs_image(words, golomb_nbb(k_of(lg_k) + pairs.len(), pairs.len() as int), pairs)
+}
+spec fn shift_cols(set: ISet<u32>) -> ISet<u32> { ISet::new(|y: u32| y + 8 <= u32::MAX && set.contains((y + 8) as u32)) }
+spec fn unshift_has(d: Seq<u32>, x: u32) -> bool { x >= 8 && d.contains((x - 8) as u32) }
+spec fn perm_enc(phase: int) -> Seq<u8> { sp_perm_enc()@[phase]@ }
+spec fn perm_dec(phase: int) -> Seq<u8> { sp_perm_dec()@[phase]@ }
+spec fn rot_col(p: u32, offset: u8) -> u8 { ((((p & 63) as u8) + 56 - offset) as u8) & 63 }
+#[verifier::opaque]
+spec fn slide_enc(p: u32, offset: u8, perm: Seq<u8>) -> u32 { ((p >> 6) << 6) | (perm[rot_col(p, offset) as int] as u32) }
+#[verifier::opaque]
+spec fn slide_dec(q: u32, offset: u8, permd: Seq<u8>) -> u32 { ((q >> 6) << 6) | ((((permd[((q & 63) as u8) as int] + (offset + 8)) as u8) & 63) as u32) }
+spec fn slide_set(set: ISet<u32>, offset: u8, perm: Seq<u8>) -> ISet<u32> { ISet::new(|y: u32| exists|p: u32| #[trigger] set.contains(p) && slide_enc(p, offset, perm) == y) }
+spec fn unslide_has(d: Seq<u32>, offset: u8, permd: Seq<u8>, x: u32) -> bool { exists|i: int| 0 <= i < d.len() && slide_dec(#[trigger] d[i], offset, permd) == x }
+spec fn wbit(w: Seq<u8>, row: int, col: int) -> bool { bit8(w[row], col) }
+spec fn win_pairs(w: Seq<u8>) -> ISet<u32> { ISet::new(|x: u32| (x & 63) < 8 && (x >> 6) < w.len() && bit8(w[(x >> 6) as int], (x & 63) as int)) }
+spec fn hybrid_set(tbl: ISet<u32>, w: Seq<u8>) -> ISet<u32> { ISet::new(|x: u32| tbl.contains(x) || win_pairs(w).contains(x)) }
+spec fn byte_pairs(row: int, b: u8, c: int) -> Seq<u32> decreases 8 - c {
+    if c >= 8 || c < 0 { Seq::empty() } else { (if bit8(b, c) { seq![rc(row, c)] } else { Seq::<u32>::empty() }) + byte_pairs(row, b, c + 1) }
+}
+spec fn win_seq(w: Seq<u8>, rows: int) -> Seq<u32> decreases rows { if rows <= 0 { Seq::empty() } else { win_seq(w, rows - 1) + byte_pairs(rows - 1, w[rows - 1], 0) } }
+spec fn win_count(w: Seq<u8>, rows: int) -> int { win_seq(w, rows).len() as int }
+spec fn cs_is_default(c: CompressedState) -> bool {
+    c.table_data@.len() == 0 && c.table_data_words == 0 && c.table_num_entries == 0 && c.window_data@.len() == 0 && c.window_data_words == 0
+}
+spec fn compress_image(c: CompressedState, s: CpcSketch) -> bool {
+    let fl = flavor_spec(s.lg_k, s.num_coupons); let phase = pseudo_phase_spec(s.lg_k, s.num_coupons); let n_tbl = s.surprising_value_table->0.num_items;
+    &&& c.table_data_words <= c.table_data@.len() && c.window_data_words <= c.window_data@.len()
+    &&& fl is Empty ==> cs_is_default(c)
+    &&& (fl is Sparse || fl is Hybrid) ==> c.window_data@.len() == 0 && c.window_data_words == 0
+    &&& fl is Sparse ==> table_image_of(c.table_words(), c.table_num_entries, s.lg_k, s.tbl())
+    &&& fl is Hybrid ==> table_image_of(c.table_words(), c.table_num_entries, s.lg_k, hybrid_set(s.tbl(), s.sliding_window@))
+    &&& (fl is Pinned || fl is Sliding) ==> is_window_image(c.window_words(), phase, s.sliding_window@)
+    &&& (fl is Pinned || fl is Sliding) && n_tbl == 0 ==> c.table_data@.len() == 0 && c.table_data_words == 0 && c.table_num_entries == 0
+    &&& fl is Pinned && n_tbl > 0 ==> table_image_of(c.table_words(), c.table_num_entries, s.lg_k, shift_cols(s.tbl()))
+    &&& fl is Sliding && n_tbl > 0 ==> table_image_of(c.table_words(), c.table_num_entries, s.lg_k, slide_set(s.tbl(), s.window_offset, perm_enc(phase)))
+}
+spec fn image_valid(c: CompressedState, lg_k: u8, nc: u32) -> bool {
+    let fl = flavor_spec(lg_k, nc); let n = c.table_num_entries;
+    &&& 4 <= lg_k <= 26
+    &&& (fl is Sparse || fl is Hybrid) ==> c.window_data@.len() == 0 && c.table_data@.len() > 0 && c.table_valid(lg_k)
+    &&& (fl is Pinned || fl is Sliding) ==> c.window_data@.len() > 0 && c.window_valid(lg_k, nc) && (n > 0 ==> c.table_data@.len() > 0 && c.table_valid(lg_k))
+    &&& fl is Pinned && n > 0 ==> (forall|i: int| 0 <= i < n ==> (#[trigger] c.table_decoded(lg_k)[i] & 63) < 56 && c.table_decoded(lg_k)[i] + 8 != EMPTY)
+    &&& fl is Sliding && n > 0 ==> dco(lg_k, nc) <= 56 && (forall|i: int| 0 <= i < n ==> (#[trigger] c.table_decoded(lg_k)[i] & 63) < 56
+            && slide_dec(c.table_decoded(lg_k)[i], dco(lg_k, nc) as u8, perm_dec(pseudo_phase_spec(lg_k, nc))) != EMPTY)
+}
+spec fn decoded_as(r: UncompressedState, c: CompressedState, lg_k: u8, nc: u32) -> bool {
+    let fl = flavor_spec(lg_k, nc); let n = c.table_num_entries; let d = c.table_decoded(lg_k);
+    &&& r.table.wf() && r.table.num_valid_bits == 6 + lg_k
+    &&& (fl is Empty || fl is Sparse) ==> r.window@.len() == 0
+    &&& fl is Empty ==> r.table.items() =~= ISet::<u32>::empty()
+    &&& fl is Sparse ==> forall|x: u32| #[trigger] r.table.items().contains(x) <==> d.contains(x)
+    &&& fl is Hybrid ==> r.window@.len() == k_of(lg_k)
+          && (forall|row: int, col: int| 0 <= row < k_of(lg_k) && 0 <= col < 8 ==> (#[trigger] wbit(r.window@, row, col) <==> d.contains(rc(row, col))))
+          && (forall|x: u32| #[trigger] r.table.items().contains(x) <==> (d.contains(x) && (x & 63) >= 8))
+    &&& (fl is Pinned || fl is Sliding) ==> r.window@ == c.window_decoded(lg_k, nc)
+    &&& (fl is Pinned || fl is Sliding) && n == 0 ==> r.table.items() =~= ISet::<u32>::empty()
+    &&& fl is Pinned && n > 0 ==> forall|x: u32| #[trigger] r.table.items().contains(x) <==> unshift_has(d, x)
+    &&& fl is Sliding && n > 0 ==> forall|x: u32| #[trigger] r.table.items().contains(x) <==> unslide_has(d, dco(lg_k, nc) as u8, perm_dec(pseudo_phase_spec(lg_k, nc)), x)
+}
+spec fn transported(c: CompressedState, c2: CompressedState) -> bool {
+    &&& c2.table_data@ == c.table_words() && c2.table_data_words == c.table_data_words && c2.table_num_entries == c.table_num_entries
+    &&& c2.window_data@ == c.window_words() && c2.window_data_words == c.window_data_words
+    &&& c.table_data_words <= c.table_data@.len() && c.window_data_words <= c.window_data@.len()
+    &&& c2.table_data_words <= 0xffff_ffff && c2.window_data_words <= 0xffff_ffff
+}
+impl CpcSketch {
+    spec fn coder_wf(&self) -> bool {
+        &&& 4 <= self.lg_k <= 26
+        &&& self.window_offset <= 56
+        &&& (self.sliding_window@.len() == 0 || self.sliding_window@.len() == self.k())
+        &&& self.surprising_value_table is Some && self.surprising_value_table->0.wf()
+        &&& 4 * self.surprising_value_table->0.num_items <= 3 * 0x400_0000
+        &&& (forall|x: u32| #[trigger] self.tbl().contains(x) ==> (x >> 6) < self.k() && x != EMPTY)
+        &&& (self.sliding_window@.len() != 0 ==> forall|x: u32| #[trigger] self.tbl().contains(x) ==> !(self.window_offset <= (x & 63) < self.window_offset + 8))
+    }
+    spec fn compress_wf(&self) -> bool {
+        let fl = flavor_spec(self.lg_k, self.num_coupons);
+        &&& 4 <= self.lg_k <= 26
+        &&& !(fl is Empty) ==> self.coder_wf()
+        &&& fl is Sparse ==> self.sliding_window@.len() == 0 && self.surprising_value_table->0.num_items >= 1
+        &&& (fl is Hybrid || fl is Pinned) ==> self.sliding_window@.len() == self.k() && self.window_offset == 0
+        // CpcSketch::wf_count (unit cpc_update): every coupon is in the table or in the window
+        &&& fl is Hybrid ==> self.num_coupons == self.surprising_value_table->0.num_items + win_count(self.sliding_window@, self.k())
+        &&& fl is Sliding ==> self.sliding_window@.len() == self.k()
+    }
+}
+impl CompressedState {
+    spec fn table_words(&self) -> Seq<u32> { self.table_data@.take(self.table_data_words as int) }
+    spec fn window_words(&self) -> Seq<u32> { self.window_data@.take(self.window_data_words as int) }
+    spec fn nbb(&self, lg_k: u8) -> int { golomb_nbb(k_of(lg_k) + self.table_num_entries, self.table_num_entries as int) }
+    spec fn table_decoded(&self, lg_k: u8) -> Seq<u32> { dec_pairs(llu_dec(), self.nbb(lg_k), words_bits(self.table_data@), self.table_num_entries as int, 0, 0) }
+    spec fn table_valid(&self, lg_k: u8) -> bool {
+        let n = self.table_num_entries as int; let d = self.table_decoded(lg_k);
+        &&& self.table_data@.len() == self.table_data_words && self.table_data_words <= 0xffff_ffff
+        &&& 1 <= n && 4 * n <= 3 * 0x400_0000 && 4 * n <= 3 * pow2((5 + lg_k) as nat)
+        &&& dec_pairs_fits(llu_dec(), self.nbb(lg_k), words_bits(self.table_data@), n, 0, 0)
+        // (row 2^26 - 1, column 63) IS the EMPTY marker of PairTable when lg_k = 26: excluded explicitly
+        &&& forall|i: int| 0 <= i < n ==> (#[trigger] d[i] >> 6) < k_of(lg_k) && d[i] != EMPTY
+        &&& forall|i: int, j: int| 0 <= i < j < n ==> d[i] != d[j]
+    }
+    spec fn window_decoded(&self, lg_k: u8, num_coupons: u32) -> Seq<u8> { dec_bytes(byte_dec(pseudo_phase_spec(lg_k, num_coupons)), words_bits(self.window_data@), k_of(lg_k)) }
+    spec fn window_valid(&self, lg_k: u8, num_coupons: u32) -> bool {
+        &&& self.window_data@.len() == self.window_data_words
+        &&& dec_bytes_fits(byte_dec(pseudo_phase_spec(lg_k, num_coupons)), words_bits(self.window_data@), k_of(lg_k))
+    }
+}
+
+// the SHAPE of what `compress` leaves (VERBATIM from contracts/cpc_coder.rs)
+spec fn coder_shape(fl: Flavor, c: CompressedState) -> bool {
+    &&& c.table_data_words <= c.table_data@.len() && c.window_data_words <= c.window_data@.len()
+    &&& c.table_data_words <= 0xffff_ffff && c.window_data_words <= 0xffff_ffff
+    &&& fl is Empty ==> cs_is_default(c)
+    &&& (fl is Sparse || fl is Hybrid) ==> c.window_data@.len() == 0 && c.table_data@.len() > 0
+    &&& (fl is Pinned || fl is Sliding) ==> c.window_data@.len() > 0 && (c.table_num_entries > 0 ==> c.table_data@.len() > 0)
+}
+// C11 for the coder as a whole, PROVED in unit cpc_coder (contracts/cpc_coder.rs, `lemma_coder_roundtrip`: statement VERBATIM, body there).
+// Imported here as an axiom about the shared vocabulary; it is the only fact about the CONTENT of the compressed words this unit uses.
+#[verifier::external_body]
+proof fn lemma_coder_roundtrip(s: CpcSketch, c: CompressedState, c2: CompressedState, r: UncompressedState)
+  requires s.compress_wf(), compress_image(c, s), transported(c, c2),
+    // the decoder's table capacity (PairTable::from_slots: C14.cpc.from_slots.fits of unit cpc_codec)
+    4 * c.table_num_entries <= 3 * 0x400_0000 && 4 * c.table_num_entries <= 3 * pow2((5 + s.lg_k) as nat),
+    // CpcSketch::wf_offset (unit cpc_core): the window offset is the function of (lg_k, C) that the decoder recomputes
+    flavor_spec(s.lg_k, s.num_coupons) is Sliding ==> s.window_offset == dco(s.lg_k, s.num_coupons),
+    // PairTable::wf (unit cpc_pairtable): no items counted = no items held
+    !(flavor_spec(s.lg_k, s.num_coupons) is Empty) && s.surprising_value_table->0.num_items == 0 ==> s.tbl() =~= ISet::<u32>::empty(),
+  ensures
+    /*@C11.cpc.coder_image_valid*/ image_valid(c2, s.lg_k, s.num_coupons),
+    /*@C11.cpc.coder_roundtrip_table*/ decoded_as(r, c2, s.lg_k, s.num_coupons) && !(flavor_spec(s.lg_k, s.num_coupons) is Empty) ==> r.table.items() =~= s.tbl(),
+    /*@C11.cpc.coder_roundtrip_window*/ decoded_as(r, c2, s.lg_k, s.num_coupons) && !(flavor_spec(s.lg_k, s.num_coupons) is Empty) ==> r.window@ =~= s.sliding_window@,
+    decoded_as(r, c2, s.lg_k, s.num_coupons) && flavor_spec(s.lg_k, s.num_coupons) is Empty ==> r.window@.len() == 0 && r.table.items() =~= ISet::<u32>::empty(),
+{
+}
 // the state a parsed image hands to the decompressor
 spec fn cs_of(b: Seq<u8>) -> CsView {
     CsView { table: fld_table(b), table_words: fld_sv_len(b) as int, num_entries: fld_num_sv(b), window: fld_window(b), window_words: fld_w_len(b) as int }
@@ -790,15 +1018,19 @@ impl CompressedState {
     #[verifier::external_body]
     fn default() -> (r: Self) ensures r.cview() == cs_default() { unimplemented!() }
 
-    // OPAQUE (FM85 entropy coder).  Assumed: deterministic in the sketch; fills the five fields with the shape above.
+    // OPAQUE here (FM85 entropy coder); contract VERBATIM from the one PROVED in contracts/cpc_coder.rs
     #[verifier::external_body]
     fn compress(&mut self, source: &CpcSketch)
-      requires old(self).cview() == cs_default(), 4 <= source.lg_k <= 26,
-      ensures final(self).cview() == compressed_of(*source), compress_shape(flavor_spec(source.lg_k, source.num_coupons), final(self).cview()),
+      requires cs_is_default(*old(self)),
+        /*@C12.cpc.compress_wf*/ source.compress_wf(),
+      ensures compress_image(*final(self), *source),
+        coder_shape(flavor_spec(source.lg_k, source.num_coupons), *final(self)),
+        flavor_spec(source.lg_k, source.num_coupons) is Sparse ==> final(self).table_num_entries == source.surprising_value_table->0.num_items,
+        flavor_spec(source.lg_k, source.num_coupons) is Hybrid ==> final(self).table_num_entries == source.num_coupons,
     { unimplemented!() }
 
-    // OPAQUE (FM85 entropy decoder).  The preconditions are what its body needs from the PARSER not to panic / over-allocate; the
-    // postconditions are what a correct decoder delivers when it returns.
+    // OPAQUE here (FM85 entropy decoder).  The preconditions are what its body needs from the PARSER not to panic / over-allocate; the
+    // postconditions are VERBATIM the ones PROVED in contracts/cpc_coder.rs (C13.cpc.coder_uncompress_*).
     #[verifier::external_body]
     fn uncompress(&self, lg_k: u8, num_coupons: u32) -> (r: UncompressedState)
       requires
@@ -806,8 +1038,11 @@ impl CompressedState {
         /*@C14.cpc.uncompress.words*/ self.table_data@.len() == self.table_data_words && self.table_data_words <= 0xffff_ffff,
         /*@C14.cpc.uncompress.words*/ self.window_data@.len() == self.window_data_words && self.window_data_words <= 0xffff_ffff,
         /*@C14.cpc.uncompress.pre*/ uncompress_pre(self.cview(), lg_k, num_coupons),
+        // what unit cpc_coder's PROOF of the decoder needs: the words are a valid image for (lg_k, C) - the streams fit and decode to
+        // distinct coupons of a 2^lg_k-row matrix.  The parser establishes none of it (same known finding as uncompress_pre).
+        /*@C14.cpc.uncompress.pre*/ image_valid(*self, lg_k, num_coupons),
       ensures
-        r == uncompressed_of(self.cview(), lg_k, num_coupons),
+        decoded_as(r, *self, lg_k, num_coupons),
         r.table.wf(), r.table.num_valid_bits == 6 + lg_k,
         r.window@.len() == (if flavor_spec(lg_k, num_coupons) is Empty || flavor_spec(lg_k, num_coupons) is Sparse { 0 } else { pow2(lg_k as nat) as int }),
         flavor_spec(lg_k, num_coupons) is Empty ==> r.table.num_items == 0,
@@ -815,6 +1050,14 @@ impl CompressedState {
         // pinned: `+= 8` after `assert!(col < 56)`; sliding: permutation into [0,56) then rotation by offset + 8; hybrid: columns < 8 go to the window
         dco(lg_k, num_coupons) <= 56 && r.window@.len() != 0 ==> forall|x: u32| r.table.items().contains(x) ==> !(dco(lg_k, num_coupons) <= (x & 63) < dco(lg_k, num_coupons) + 8),
     { unimplemented!() }
+}
+
+// what `compress` leaves for sketch s: the postcondition of `compress` (PROVED in unit cpc_coder), as one predicate
+spec fn serialized_state(s: CpcSketch, c: CompressedState) -> bool {
+    let fl = flavor_spec(s.lg_k, s.num_coupons);
+    &&& compress_image(c, s) && coder_shape(fl, c)
+    &&& fl is Sparse ==> c.table_num_entries == s.surprising_value_table->0.num_items
+    &&& fl is Hybrid ==> c.table_num_entries == s.num_coupons
 }
 
 // OPAQUE (Golomb / length-limited-unary pair decoder).  Only the length of the result is assumed; the preconditions are what its body needs.
@@ -912,9 +1155,10 @@ assert ( bytes @ =~= old ( bytes ) @ + ( le64_bytes ( f64_bits ( self . kxp ) ) 
 }
 
 
-    fn serialize ( & self ) -> ( r : Vec < u8 > ) requires self . wf_codec ( ) ensures
-/*@C12.cpc.preamble*/ r @ == enc_cpc ( self . img ( compressed_of ( * self ) ) ) ,
-/*@C11.cpc.serialize_decodes*/ cpc_decode ( r @ ) == Some ( self . img ( compressed_of ( * self ) ) ) , {
+    fn serialize ( & self ) -> ( r : Vec < u8 > ) requires self . wf_codec ( ) ,
+/*@C12.cpc.compress_wf*/ self . compress_wf ( ) , ensures
+/*@C12.cpc.preamble*/ exists | c : CompressedState | # [ trigger ] serialized_state ( * self , c ) && r @ == enc_cpc ( self . img ( c . cview ( ) ) ) ,
+/*@C11.cpc.serialize_decodes*/ exists | c : CompressedState | # [ trigger ] serialized_state ( * self , c ) && r @ == enc_cpc ( self . img ( c . cview ( ) ) ) && cpc_decode ( r @ ) == Some ( self . img ( c . cview ( ) ) ) , {
 let mut bytes = SketchBytes :: with_capacity ( 256 ) ;
 let mut compressed = CompressedState :: default ( ) ;
 compressed . compress ( self ) ;
@@ -1037,6 +1281,7 @@ proof {
 assert ( bytes @ == enc_cpc ( v ) ) ;
 assert ( img_canon ( v ) ) ;
 lemma_cpc_framing_roundtrip ( v ) ;
+assert ( serialized_state ( * self , compressed ) ) ;
 }
 bytes . into_bytes ( ) }
 
@@ -1089,10 +1334,7 @@ Self :: deserialize_with_seed ( bytes , DEFAULT_UPDATE_SEED ) }
 /*@C13.cpc.fields*/ r matches Ok ( s ) ==> s . lg_k == bytes @ [ 3 ] && s . first_interesting_column == bytes @ [ 4 ] && s . seed_hash == fld_seed_hash ( bytes @ ) && s . seed == seed && s . num_coupons == fld_num_coupons ( bytes @ ) && s . merge_flag == ! f_hip ( bytes @ ) ,
 /*@C13.cpc.hip*/ r matches Ok ( s ) ==> s . kxp == kxp_value ( bytes @ ) && s . hip_est_accum == hip_value ( bytes @ ) ,
 /*@C13.cpc.hip_bits*/ r matches Ok ( s ) ==> hip_present ( bytes @ ) ==> f64_bits ( s . kxp ) == fld_kxp_bits ( bytes @ ) && f64_bits ( s . hip_est_accum ) == fld_hip_bits ( bytes @ ) ,
-/*@C13.cpc.payload*/ r matches Ok ( s ) ==> s . surprising_value_table is Some && ( {
-let u = uncompressed_of ( cs_of ( bytes @ ) , s . lg_k , s . num_coupons ) ;
-s . surprising_value_table -> 0 == u . table && s . sliding_window == u . window }
-) ,
+/*@C13.cpc.payload*/ r matches Ok ( s ) ==> s . surprising_value_table is Some && ( exists | c : CompressedState , u : UncompressedState | c . cview ( ) == cs_of ( bytes @ ) && # [ trigger ] decoded_as ( u , c , s . lg_k , s . num_coupons ) && s . surprising_value_table -> 0 == u . table && s . sliding_window == u . window ) ,
 /*@C13.cpc.header_spec*/ r matches Ok ( s ) ==> cpc_header_spec ( bytes @ ) == Some ( s . hdr ( ) ) ,
 /*@C13.cpc.accepts*/ cpc_accepts ( bytes @ , seed ) ==> r is Ok ,
 /*@C13.cpc.delivers*/ r matches Ok ( s ) ==> deser_delivers ( bytes @ , seed , s ) ,
@@ -1303,6 +1545,7 @@ let uncompressed = compressed . uncompress ( lg_k , num_coupons ) ;
 proof {
 lemma_table_rows ( uncompressed . table , lg_k ) ;
 lemma_dco_small ( lg_k , num_coupons ) ;
+assert ( compressed . cview ( ) == cs_of ( bytes @ ) && decoded_as ( uncompressed , compressed , lg_k , num_coupons ) ) ;
 }
 Ok ( CpcSketch {
 lg_k , seed , seed_hash , first_interesting_column , num_coupons , surprising_value_table : Some ( uncompressed . table ) , window_offset : determine_correct_offset ( lg_k , num_coupons ) , sliding_window : uncompressed . window , merge_flag : ! has_hip , kxp : if has_table || has_window {
@@ -1348,6 +1591,62 @@ proof fn lemma_dco_small(lg_k: u8, c: u32)
     if 8 * (c as int) < 27 * k && t >= 0 {
         assert(t / (8 * k) == 0) by (nonlinear_arith) requires 0 <= t < 8 * k, k > 0;
     }
+}
+
+// =====================================================================================================================
+// C11 END TO END: deserialize(serialize(s)) holds the same window and the same table SET as s (the slot order of the rebuilt
+// table differs; the image does not carry it).  Spec-level composition of
+//   - this unit's contracts: `serialize` (C11.cpc.serialize_decodes: the bytes are the framing of a state `compress` left),
+//     `deserialize_with_seed` (C13.cpc.fields, C13.cpc.payload: the sketch holds what the decoder makes of the parsed state cs_of(b)),
+//   - the coder's round trip `lemma_coder_roundtrip` (proved in unit cpc_coder) across the transport of the used words.
+// The premises beyond the two postconditions are clauses of CpcSketch::wf (units cpc_core / cpc_update: offset, sparse count) and of
+// PairTable::wf (no items counted = none held), and the decoder's table capacity for the written pair count.
+// It also shows that for every image `serialize` writes, the call of `uncompress` in `deserialize_with_seed` MEETS the coder's
+// precondition image_valid (C14.cpc.uncompress.pre fails for arbitrary bytes only).
+// =====================================================================================================================
+proof fn lemma_cpc_roundtrip(s: CpcSketch, b: Seq<u8>, t: CpcSketch)
+  requires
+    s.wf_codec(), s.compress_wf(),
+    // b = s.serialize()                                                        (C11.cpc.serialize_decodes)
+    exists|c: CompressedState| #[trigger] serialized_state(s, c) && b == enc_cpc(s.img(c.cview())) && cpc_decode(b) == Some(s.img(c.cview()))
+        && 4 * c.table_num_entries <= 3 * 0x400_0000 && 4 * c.table_num_entries <= 3 * pow2((5 + s.lg_k) as nat),
+    // Ok(t) = CpcSketch::deserialize_with_seed(b, seed)                        (C13.cpc.fields, C13.cpc.payload)
+    t.lg_k == b[3] && t.num_coupons == fld_num_coupons(b),
+    t.surprising_value_table is Some,
+    exists|c2: CompressedState, u: UncompressedState| c2.cview() == cs_of(b) && #[trigger] decoded_as(u, c2, t.lg_k, t.num_coupons)
+        && t.surprising_value_table->0 == u.table && t.sliding_window == u.window,
+    // clauses of CpcSketch::wf / PairTable::wf (the premises of lemma_coder_roundtrip, and the sparse count that stands for numSV in a table-only image)
+    flavor_spec(s.lg_k, s.num_coupons) is Sliding ==> s.window_offset == dco(s.lg_k, s.num_coupons),
+    !(flavor_spec(s.lg_k, s.num_coupons) is Empty) && s.surprising_value_table->0.num_items == 0 ==> s.tbl() =~= ISet::<u32>::empty(),
+    s.wf_sparse_count(),
+  ensures
+    /*@C11.cpc.roundtrip*/ t.lg_k == s.lg_k && t.num_coupons == s.num_coupons,
+    /*@C11.cpc.roundtrip*/ !(flavor_spec(s.lg_k, s.num_coupons) is Empty) ==> t.tbl() =~= s.tbl() && t.sliding_window@ =~= s.sliding_window@,
+    /*@C11.cpc.roundtrip*/ flavor_spec(s.lg_k, s.num_coupons) is Empty ==> t.tbl() =~= ISet::<u32>::empty() && t.sliding_window@.len() == 0,
+    /*@C11.cpc.roundtrip_valid*/ forall|c2: CompressedState| c2.cview() == cs_of(b) ==> #[trigger] image_valid(c2, s.lg_k, s.num_coupons),
+{
+    let c = choose|c: CompressedState| #[trigger] serialized_state(s, c) && b == enc_cpc(s.img(c.cview())) && cpc_decode(b) == Some(s.img(c.cview()))
+        && 4 * c.table_num_entries <= 3 * 0x400_0000 && 4 * c.table_num_entries <= 3 * pow2((5 + s.lg_k) as nat);
+    let v = s.img(c.cview());
+    let fl = flavor_spec(s.lg_k, s.num_coupons);
+    assert(cpc_valid(b) && img_of(b) == v);
+    assert(b[3] == s.lg_k && fld_num_coupons(b) == s.num_coupons);
+    // the parsed state is the transport of the used words of c, for ANY CompressedState with that view
+    assert forall|c2: CompressedState| c2.cview() == cs_of(b) implies transported(c, c2) by {
+        assert(c2.table_data@ == fld_table(b) && c2.window_data@ == fld_window(b));
+        assert(fld_table(b) == c.table_words() && fld_window(b) == c.window_words());
+        assert(fld_table(b).len() == fld_sv_len(b) && fld_window(b).len() == fld_w_len(b));
+        assert(c.table_words().len() == c.table_data_words && c.window_words().len() == c.window_data_words);
+        assert(c2.table_num_entries == fld_num_sv(b) && fld_num_sv(b) == v.num_sv);
+        assert(v.num_sv == c.table_num_entries);
+    }
+    assert forall|c2: CompressedState| c2.cview() == cs_of(b) implies #[trigger] image_valid(c2, s.lg_k, s.num_coupons) by {
+        let u0: UncompressedState = arbitrary();
+        lemma_coder_roundtrip(s, c, c2, u0);
+    }
+    let (c2, u) = choose|c2: CompressedState, u: UncompressedState| c2.cview() == cs_of(b) && #[trigger] decoded_as(u, c2, t.lg_k, t.num_coupons)
+        && t.surprising_value_table->0 == u.table && t.sliding_window == u.window;
+    lemma_coder_roundtrip(s, c, c2, u);
 }
 
 // =====================================================================================================================
